@@ -380,7 +380,13 @@ pub open spec fn loaded(b: DidV, raw: Map<Seq<char>, JV>, d: Delta) -> bool {
 /// every "k" entry is a string (`p.as_str().unwrap()`), parsed parent indices and previous-revision indices are below u32::MAX
 /// (`+ 1` on a u32), the previous-revision text of an update record does not overflow `Revision::from`'s `parse::<u32>().unwrap()`
 pub open spec fn rec_bounded(e: JV) -> bool {
-    e matches JV::Arr(r) && r.len() == 3 && r[1] matches JV::Str(s) ==> !rev_parse_panics(s) && (rev_parse(s) matches Some(p) ==> p.0 < u32::MAX)
+    match e {
+        JV::Arr(r) => r.len() == 3 ==> match r[1] {
+            JV::Str(s) => !rev_parse_panics(s) && match rev_parse(s) { Some(p) => p.0 < u32::MAX, None => true },
+            _ => true,
+        },
+        _ => true,
+    }
 }
 pub open spec fn inputs_bounded(raw: Map<Seq<char>, JV>) -> bool {
     &&& (arr_of(raw, PACK_FIELD@) matches Some(a) ==> forall|i: int| 0 <= i < a.len() ==> (#[trigger] a[i]) is Str)
